@@ -270,13 +270,14 @@ def _check(mod: Any, pid: str, tier: str, base_seed: int, workers: int, budget: 
     for path, msg in reported:
         print('VIOLATION property=%s replay=%s' % (pid, path))
         print('  %s' % msg[:500])
+    if reported:
+        # a violation that was re-verified and replayed in a fresh process stands, whatever else went wrong
+        return 1
     if harness_errors:
         return 3
     if runs == 0:
         print('HARNESS-ERROR: no runs executed')
         return 3
-    if reported:
-        return 1
     if viols and not reported:
         return 3
     return 0
